@@ -333,9 +333,13 @@ fn gen_random(rng: &mut Rng, n_per: usize, out: &mut Vec<String>) {
                 out.push(line);
             }
             // iterators
-            for flavour in ["fallible", "infallible"] {
+            for flavour in ["fallible", "infallible", "fallible-loose", "infallible-loose"] {
                 let n = (rng.next() % 8) as usize;
                 let mut line = format!("backend.iter {:x} | {} {}", w, flavour, gen_script(rng, w, n));
+                if flavour.ends_with("loose") {
+                    let hi = if rng.chance(1, 4) { "inf".to_string() } else { format!("{:x}", rng.below(4)) };
+                    line.push_str(&format!(" {:x} {}", rng.below(3), hi));
+                }
                 let k = rng.next() % 14;
                 for _ in 0..k {
                     line.push_str(" | ");
@@ -433,6 +437,13 @@ fn gen_exhaustive_iter(out: &mut Vec<String>) {
                 "backend.iter {:x} | {} {} | read_q | read_q | read_q | read_q | read_q | remaining_q | write 1 | seek 0 | pos | space_left | full | into_reversed",
                 w, flavour, s
             ));
+            // the same script behind a legal but inexact size_hint (lower slack, upper slack / no upper bound)
+            for (lo, hi) in [("0", "1"), ("1", "0"), ("2", "3"), ("0", "inf"), ("1", "inf"), ("0", "ffffffffffffffff")] {
+                out.push(format!(
+                    "backend.iter {:x} | {}-loose {} {} {} | exhausted_s | read_s | exhausted_q | read_q | exhausted_s | read_s | exhausted_q | read_q | exhausted_s | read_s | raw | remaining_s | write 1",
+                    w, flavour, s, lo, hi
+                ));
+            }
         }
     }
 }
@@ -490,6 +501,10 @@ fn gen_malformed(out: &mut Vec<String>) {
         "backend.callback 8 | infallible 1 | write 1",
         "backend.callback 8 | fallible zz | write 1",
         "backend.iter 8 | fallible 1ff,x,_ | read_s | read_s | read_s | read_s",
+        "backend.iter 8 | fallible-loose 1,2 0 | read_s",
+        "backend.iter 8 | fallible-loose 1,2 zz 1 | read_s",
+        "backend.iter 8 | fallible-loose 1,2 0 10000000000000000 | read_s",
+        "backend.iter 8 | infallible-loose 1,q 0 inf | read_s",
         // views: unknown / nested / malformed sub-ops, views on backends that have none
         "backend.cursor-owned 8 | at 1,2 1 | as_view roundtrip | raw",
         "backend.cursor-owned 8 | at 1,2 1 | as_view bm_set:1 | raw",
